@@ -119,6 +119,12 @@ def build_corpus(tier, rng):
         hs = Item("E", [Variant("Fast", "unit"), Variant("Slow", "unit", [], [aci(True, explicit=False), ser("s")]), Variant("Plain", "unit", [], [ser("p")])])
         hs.hostile = [nm_]
         cands.append(("hostile-scope/" + nm_, hs))
+    # a LIFETIME parameter (used by a disabled variant only: the enabled ones carry no data) is no obstacle to use_phf
+    for j in range(3):
+        vs = [Variant("Plain", "unit"), Variant("Other", "tuple", [Field("&'l0 str")], [DISABLED] + ([ser("o")] if j else [])), Variant("Dark", "unit", [], [ser("d"), aci(True, explicit=False)]),
+              Variant("Ref", "named", [Field("&'l0 str", "text")], [DISABLED])][: 4 - (j % 2)]
+        lt = Item("E", vs, lifetimes=1, metas=[EM("sall", "kebab-case")] if j == 2 else [])
+        cands.append(("lifetime", lt))
     for it in c01.declaration_order():
         if not any(m.kind == "phf" for m in it.metas):
             cands.append(("overlap", it))
